@@ -74,6 +74,8 @@ class Compiler:
 
         parsed = self.prepare_for_stack(lines, skip_indentation)
 
+        if proj_env is None:
+            proj_env = ProjectEnvironment(compile_options=self.compile_options)
         env = Environment(var_env, proj_env)
         base_stack = Stack(
             parsed, file, compile_options=env.proj.compile_options, env=env
